@@ -107,7 +107,7 @@ func c33Commit(env *world.PluginEnv, node string, st *nState, ws ...plugintypes.
 }
 
 func keepBindEnum(c *vcore.Ctx) {
-	c.SetRule("every node of k <= 4 cores with per-core capacity {1,2} whole cores (share base 100; thorough also 10), without NUMA and with a 2-NUMA split (first half / second half, NUMA memory 500+500 of 1000) x other usage {none, one other bound workload of 1 or 2 full cores} x allocation order {other first, origin first} x every distinct placement the real plugin offers (CalculateDeploy at the largest accepted count, committed with SetNodeResourceUsage) for the other workload and for an origin of 1 or 2 full cores (incl. 1.0 on a 2-share core), memory 20 x CalculateRealloc{keep-cpu-bind, cpu-request 0, memory-request delta {0,+10,-10}}; " +
+	c.SetRule("every node of k <= 4 cores with per-core capacity {1,2} whole cores (share base 100; thorough also 10), without NUMA and with a 2-NUMA split (first half / second half, NUMA memory 500+500 of 1000) x other usage {none, one other bound workload of 1 or 2 full cores} x allocation order {other first, origin first} x every distinct placement the real plugin offers (CalculateDeploy at the largest accepted count, committed with SetNodeResourceUsage) for the other workload and for an origin of 1 or 2 full cores (incl. 1.0 on a 2-share core), memory 20 or 300 (more than half of its NUMA node) x CalculateRealloc{keep-cpu-bind, cpu-request 0, memory-request delta {0,+10,-10}}; " +
 		fmt.Sprintf("each case on a NUMA node is repeated %d times (2 times without NUMA) because the plugin's plan order follows Go map iteration over NUMA nodes, and every repetition must satisfy the oracle; ", c33Reps) +
 		"oracle: workload_resource.cpu_map and numa_node equal the origin's; a neighbour of .5 core is evaluated as a probe outside the property's proviso (outcome only); non-trivial = an accepted realloc compared with its origin, distinct by (config,node,other,origin,delta)")
 	envs := penvCache{}
@@ -156,8 +156,10 @@ func keepBindEnum(c *vcore.Ctx) {
 							if !c.Mine(idx) {
 								continue
 							}
-							for _, originCPU := range []float64{1, 2} {
-								oreq := wReq{Bind: true, CPU: originCPU, CPULimit: originCPU, Mem: 20}
+							for _, oc := range [][2]float64{{1, 20}, {2, 20}, {1, 300}, {2, 300}} {
+								// origin memory 300 of a 500 NUMA node: what is free WITHOUT the workload's own share is less than its new total
+								originCPU := oc[0]
+								oreq := wReq{Bind: true, CPU: originCPU, CPULimit: originCPU, Mem: int64(oc[1])}
 								xreq := wReq{Bind: true, CPU: otherCPU, CPULimit: otherCPU, Mem: 20}
 								var pairs [][2]plugintypes.WorkloadResource // (other, origin)
 								switch {
@@ -216,7 +218,7 @@ func keepBindEnum(c *vcore.Ctx) {
 
 func c33Key(kc *c33Case) string {
 	o, _ := parseWR(kc.Origin)
-	s := fmt.Sprintf("%d/%v/%v/origin=%v@%s/d=%d", kc.Base, kc.Cap, kc.NUMA, sortedPieces(o.CPUMap), o.NUMANode, kc.MemDelta)
+	s := fmt.Sprintf("%d/%v/%v/origin=%v@%s/m=%d/d=%d", kc.Base, kc.Cap, kc.NUMA, sortedPieces(o.CPUMap), o.NUMANode, o.MemoryRequest, kc.MemDelta)
 	if kc.Other != nil {
 		x, _ := parseWR(kc.Other)
 		s += fmt.Sprintf("/other=%v@%s", sortedPieces(x.CPUMap), x.NUMANode)
